@@ -42,6 +42,17 @@ func TestReplay(t *testing.T) {
 			vs, _, _ := CheckSession(c)
 			return vs
 		},
+		"TestFirewallSessionsMySQL": func(raw json.RawMessage) hx.Vs {
+			var c MyFwCase
+			if err := json.Unmarshal(raw, &c); err != nil {
+				return hx.Vs{{Sig: "harness:decode", Msg: err.Error()}}
+			}
+			if !myFwReplayHere() {
+				return nil
+			}
+			vs, _, _ := CheckMyFwSession(c)
+			return vs
+		},
 	})
 }
 
